@@ -34,7 +34,16 @@ async fn verif_replay_hist_branch_shapes() {
     }
     let mut bad: Vec<String> = Vec::new();
     let mut count = 0;
+    // every shape is run with every choice of WHICH branches have steps (a branch without steps finishes inside its own initialisation:
+    // the siblings initialised after it find it already decided) -- all masks for 2 branches, {all, none, alternating} for 3
+    let mut runs_list: Vec<(Vec<K>, Vec<bool>)> = Vec::new();
     for s in shapes.iter() {
+        let n = s.len();
+        let masks: Vec<Vec<bool>> = if n == 2 { vec![vec![true, true], vec![true, false], vec![false, true], vec![false, false]] }
+            else { vec![vec![true; 3], vec![false; 3], vec![true, false, true], vec![false, true, false]] };
+        for m in masks { runs_list.push((s.clone(), m)); }
+    }
+    for (s, has_steps) in runs_list.iter() {
         count += 1;
         let mut yml = String::from("id: m1\nsteps:\n  - id: step1\n    branches:\n");
         for (i, k) in s.iter().enumerate() {
@@ -45,8 +54,10 @@ async fn verif_replay_hist_branch_shapes() {
                 K::E => yml.push_str("        else: true\n"),
                 K::N(j) => yml.push_str(&format!("        needs: [b{j}]\n")),
             }
-            yml.push_str(&format!("        steps:\n          - id: s{i}\n"));
+            if has_steps[i] { yml.push_str(&format!("        steps:\n          - id: s{i}\n")); }
         }
+        // a successor step: it must start exactly once, after step1
+        yml.push_str("  - id: step2\n");
         let mut workflow = Workflow::from_yml(&yml).unwrap();
         let (proc, scher, _emitter, tx, rx) = crate::scheduler::tests::create_proc_signal::<bool>(&mut workflow, &crate::utils::longid());
         let rx2 = rx.clone();
@@ -65,10 +76,12 @@ async fn verif_replay_hist_branch_shapes() {
             let ss = proc.task_by_nid(&format!("s{i}")).first().map(|t| t.state());
             let want = if *r { TaskState::Completed } else { TaskState::Skipped };
             if bs != Some(want.clone()) { diffs.push(format!("branch b{i} ends {bs:?}, the model says {want:?}")); }
-            if *r && ss != Some(TaskState::Completed) { diffs.push(format!("step s{i} of the running branch b{i} ends {ss:?}")); }
+            if *r && has_steps[i] && ss != Some(TaskState::Completed) { diffs.push(format!("step s{i} of the running branch b{i} ends {ss:?}")); }
             if !*r && ss.is_some() { diffs.push(format!("step s{i} of the skipped branch b{i} ran ({ss:?})")); }
         }
-        if !diffs.is_empty() { bad.push(format!("REPLAY-FAIL branches (declaration order) {s:?}: {}", diffs.join("; "))); }
+        let n2 = proc.task_by_nid("step2");
+        if n2.len() != 1 || n2[0].state() != TaskState::Completed { diffs.push(format!("the successor step2 ran {} time(s) ({:?})", n2.len(), n2.iter().map(|t| t.state()).collect::<Vec<_>>())); }
+        if !diffs.is_empty() { bad.push(format!("REPLAY-FAIL branches (declaration order) {s:?} with steps in {has_steps:?}: {}", diffs.join("; "))); }
     }
     println!("shapes explored: {count}");
     for b in bad.iter() { println!("{b}"); }
